@@ -1,5 +1,6 @@
 """Builds /repo's current working tree with CMake+Ninja (verification guard ON) in a given configuration into the
-cache, keyed by a hash of all sources and options; returns the build directory.  One cache entry per configuration."""
+cache: one directory per configuration, rebuilt in place (incrementally) whenever the hash of all sources and options
+differs from the one it was last built from; returns the build directory."""
 import os
 import shutil
 import sys
@@ -31,16 +32,21 @@ CONFIGS = {
 
 
 def build(name, extra_flags=""):
+    """one build directory per configuration, rebuilt IN PLACE (ninja recompiles what changed in /repo since the last
+    build); `.done` holds the hash of sources and options the directory was last built from"""
     cfg = CONFIGS[name]
     files = vlib.repo_files(["smt", "riddle", "core", "solver", "executor", "main.cpp", "CMakeLists.txt"], exts=(".cpp", ".h", ".in", ".txt", ".cmake"))
     hh = vlib.tree_hash(files, extra=config_key(cfg) + extra_flags)
     slot = os.path.join(vlib.CACHE, f"b-{name}")
-    bdir = os.path.join(slot, hh)
-    if os.path.exists(os.path.join(bdir, ".done")):
+    bdir = os.path.join(slot, "tree")
+    done = os.path.join(bdir, ".done")
+    if os.path.exists(done) and open(done).read().strip() == hh:
         return bdir
-    if os.path.exists(slot):
-        shutil.rmtree(slot, ignore_errors=True)
+    if os.path.exists(slot) and not os.path.exists(os.path.join(bdir, "build.ninja")):
+        shutil.rmtree(slot, ignore_errors=True)          # an entry of the old layout, or a configure that never finished
     os.makedirs(bdir, exist_ok=True)
+    if os.path.exists(done):
+        os.remove(done)
     t = time.time()
     args = ["cmake", "-G", "Ninja", "-S", vlib.REPO, "-B", bdir, "-DBUILD_TESTING=OFF",
             f"-DCMAKE_CXX_FLAGS=-D{vlib.GUARD} {extra_flags}".strip()] + [f"-D{k}={v}" for k, v in cfg.items()]
@@ -50,11 +56,17 @@ def build(name, extra_flags=""):
         raise vlib.BuildFailure(out[-4000:])
     rc, out = vlib.sh(["cmake", "--build", bdir, "-j", str(vlib.NCPU)], timeout=3600)
     if rc != 0:
-        shutil.rmtree(slot, ignore_errors=True)
         raise vlib.BuildFailure(out[-6000:])
-    open(os.path.join(bdir, ".done"), "w").write("ok")
+    open(done, "w").write(hh)
     vlib.log(f"[build] repo config {name} built in {time.time()-t:.1f}s")
     return bdir
+
+
+def built_hash(bdir):
+    try:
+        return open(os.path.join(bdir, ".done")).read().strip()
+    except OSError:
+        return ""
 
 
 def harness(name, src, cfg_name, libs=("solver", "core", "riddle", "smt", "json"), extra_inc=()):
@@ -62,7 +74,7 @@ def harness(name, src, cfg_name, libs=("solver", "core", "riddle", "smt", "json"
     bdir = build(cfg_name)
     hsrc = os.path.join(vlib.HARNESS, src)
     hdrs = [os.path.join(vlib.HARNESS, f) for f in sorted(os.listdir(vlib.HARNESS)) if f.endswith(".h")]
-    hh = vlib.tree_hash([hsrc] + hdrs, extra=bdir)
+    hh = vlib.tree_hash([hsrc] + hdrs, extra=bdir + built_hash(bdir))
     slot = os.path.join(vlib.CACHE, f"h-{name}-{cfg_name}")
     exe = os.path.join(slot, hh, name)
     if os.path.exists(exe):
